@@ -32,7 +32,8 @@ func Run(k *report.Check) {
 	k.Assumptions = []string{"namespaces shorter than 256 bytes (the store length-prefixes them with one byte)", "order of namespaces and entries within GetState is not part of the property; grouping is"}
 	k.Budget(120, 1200)
 	p := params{depth: k.Pick(4, 5), nsub: k.Pick(3, 4), nns: k.Pick(2, 3), keyGroups: 4,
-		cfgs: []dkvh.Options{{Mem: 60, Table: 80, L0: 2, Smallest: 4500, Ampl: 50}, {Mem: 60, Table: 40, L0: 1, Smallest: 4500, Ampl: 50}}}
+		cfgs: []dkvh.Options{{Mem: 60, Table: 80, L0: 2, Smallest: 4500, Ampl: 50}, {Mem: 60, Table: 40, L0: 1, Smallest: 4500, Ampl: 50},
+			{Mem: 60, Table: 80, L0: 1, Smallest: 9000, Ampl: 200}}} // minor compactions above a non-empty base level
 	k.ExploreProc(fmt.Sprintf("store/d=%d", p.depth), mc.Config{}, p, storeBody)
 }
 
